@@ -77,6 +77,8 @@ def gen_module(rng, params):
                         blocks[j]["entry"] = True
                     if first:
                         nm = f"fn{fcount - 1}"
+                        if fcount == 2 and rng.random() < params.get("main_p", 0.3):
+                            nm = "main"
                         blocks[j]["labels"].insert(0, nm)
                         code_labels.append(nm)
                         funcs[fid] = {"name": nm}
@@ -442,6 +444,13 @@ def ops_allowed(model, sd):
             sp = model.spans[key]
             if sp.func and sum(1 for s2 in model.span_list[sp.sect] if s2.func == sp.func and s2.size) > 1:
                 return False
+    if any(op["k"] == "reg" for op in sd["ops"]):
+        if any(t.origin == "pad" for _, u in model.units() for t in u.toks):
+            return False
+        if any(sp.size == 0 and sp.kind == "code" for lst in model.span_list.values() for sp in lst):
+            return False
+        if any(op["k"] in ("del", "rep", "delblock", "delfn") for op in sd["ops"]):
+            return False
     ops = copy.deepcopy(sd["ops"])
     before = json_key(ops)
     _avoid_ambiguous(model, ops)
@@ -474,7 +483,7 @@ def shape_ok(model, sd, params):
     try:
         mods = []
         for oi, op in enumerate(sd["ops"]):
-            if op["k"] == "insfn":
+            if op["k"] in ("insfn", "reg"):
                 continue
             for key, off, length, op2 in driver.expand_op(m, op):
                 sp = m.spans[key]
@@ -514,8 +523,86 @@ def shape_ok(model, sd, params):
     return True
 
 
+def gen_scope(rng, model, spans):
+    """-> scope descriptor"""
+    names = [f["name"] for f in model.funcs.values()]
+
+    def name_filter():
+        if rng.random() < 0.35 or not names:
+            return None
+        out = []
+        for _ in range(rng.randint(1, 2)):
+            r = rng.random()
+            if r < 0.4:
+                out.append(rng.choice(names))
+            elif r < 0.6:
+                out.append({"re": rng.choice(["fn[0-9]+", "fn1|fn2", ".*", "fn0.*", "m.*", "nf.*"])})
+            elif r < 0.8:
+                out.append("MAIN")
+            else:
+                out.append("ENTRYPOINT")
+        return out
+
+    pos = rng.choice(["ENTRY", "EXIT", "ANYWHERE"])
+    r = rng.random()
+    code_spans = [sp for sp in spans if sp.kind == "code"]
+    if r < 0.4 or not code_spans:
+        return {"t": "allblocks", "pos": pos, "exclude": name_filter()}
+    if r < 0.65:
+        sp = rng.choice(code_spans)
+        return {"t": "single", "tok": sp.tok_ids[0], "pos": pos}
+    return {"t": "allfuncs", "fpos": rng.choice(["ENTRY", "EXIT"]), "bpos": pos, "functions": name_filter()}
+
+
+def gen_scope_session(rng, model, params, index):
+    """A session of scope-based registrations (plus insert_at at specific
+    places), optionally driven through a PassManager with several passes.
+    No deletions: a scope applies to every block, and nothing may be
+    registered after a whole-block deletion in the same block."""
+    ids = IdGen()
+    ids.n = 1000 * (index + 1)
+    wl = labels_of(model)
+    spans = [sp for lst in model.span_list.values() for sp in lst]
+    if any(sp.size == 0 and sp.kind == "code" for sp in spans):
+        return None  # insertion into a zero-sized block is outside the preconditions
+    if any(t.origin == "pad" for _, u in model.units() for t in u.toks):
+        # a scope applies to the padding blocks the library created as well;
+        # what instrumenting alignment padding means is left open
+        return None
+    spans = [sp for sp in spans if sp.size]
+    ops = []
+    for _ in range(rng.randint(1, 4)):
+        patch = gen_patch(rng, model, params, wl, ids, allow_cf=False)
+        patch["lines"] = [l for l in patch["lines"] if "label" not in l] or [{"marker": True}]
+        if not any("marker" in l for l in patch["lines"]):
+            patch["lines"].insert(0, {"marker": True})
+        ops.append({"k": "reg", "scope": gen_scope(rng, model, spans), "patch": patch})
+        if rng.random() < 0.3 and spans:
+            sp = rng.choice(spans)
+            toks = sorted(sp.offsets.items())
+            off, tid = rng.choice(toks)
+            ops.append({"k": "ins", "at": tid, "side": "before", "patch": gen_patch(rng, model, params, wl, ids, allow_cf=False, in_data=sp.kind == "data")})
+    sd = {"ops": ops, "reg_order": list(range(len(ops)))}
+    if rng.random() < 0.6:
+        # split into passes (order preserved)
+        npass = rng.randint(1, 3)
+        cuts = sorted(rng.sample(range(1, len(ops)), min(npass - 1, max(0, len(ops) - 1)))) if len(ops) > 1 else []
+        passes = []
+        prev = 0
+        for c in cuts + [len(ops)]:
+            passes.append(list(range(prev, c)))
+            prev = c
+        sd["mode"] = "pm"
+        sd["passes"] = passes
+    return sd
+
+
 def _gen_session(rng, model, params, index):
     """Generate one session's ops against the current spans of the model."""
+    if rng.random() < params.get("scope_session_p", 0.0):
+        sd = gen_scope_session(rng, model, params, index)
+        if sd is not None:
+            return sd
     ids = IdGen()
     ids.n = 1000 * (index + 1)
     wl = labels_of(model)
@@ -626,7 +713,7 @@ def _op_func(model, op):
     from . import driver
 
     try:
-        if op["k"] == "insfn":
+        if op["k"] in ("insfn", "reg"):
             return None
         if op["k"] == "delfn":
             return op["func"]
@@ -646,7 +733,7 @@ def _avoid_ambiguous(model, ops):
 
     loc = {}
     for oi, op in enumerate(ops):
-        if op["k"] in ("delfn", "insfn"):
+        if op["k"] in ("delfn", "insfn", "reg"):
             continue
         try:
             key, off, length = driver.resolve_op(model, op)
